@@ -835,10 +835,18 @@ fn merge_so_array(
                     )?;
 
                     if allow_additional_items {
-                        let additional_items = additional_items.as_deref().map_or_else(
-                            || Ok(single.as_ref().clone()),
-                            |additional_schema| try_merge_schema(additional_schema, single, defs),
-                        )?;
+                        // Additional items that cannot also satisfy the
+                        // single schema are not permitted; the positions
+                        // before them are unaffected.
+                        let additional_items = additional_items
+                            .as_deref()
+                            .map_or_else(
+                                || Ok(single.as_ref().clone()),
+                                |additional_schema| {
+                                    try_merge_schema(additional_schema, single, defs)
+                                },
+                            )
+                            .unwrap_or(Schema::Bool(false));
                         (
                             Some(SingleOrVec::Vec(items)),
                             Some(Box::new(additional_items)),
